@@ -655,6 +655,28 @@ add('feature/anm12-control-flow', 'ANM_12', main_body='''
     nop();
 ''')
 
+# --- errors placed inside every kind of nested statement (each must be diagnosed, not crash)
+add('feature/errors-in-nested-statements', 'ANM_12', main_body='''
+    { F0 = 1; }
+    { { I0 = 2.0; } }
+    loop { { F1 = I1; } break; }
+    times(3) { { I2 = "s"; } }
+    if (I0 == 0) { { F2 = 1; } } else { { I3 = 1.0; } }
+    while (I0 < 3) { I0 += 1; { F3 = I0; } }
+    { int x = 2.0; { float y = 1; } }
+''')
+add('feature/const-division-by-zero', 'ANM_12', items='''
+const int Z = 0;
+const int A = 7 / Z;
+const int B = 7 % (Z * 3);
+''', main_body='''
+    I0 = 5 / 0;
+    I1 = 5 % 0;
+    I2 = A + B;
+    F0 = 1.0 / 0.0;
+    I3 = I0 / 0;
+''')
+
 # --- mission MSG (no source_test coverage): th095 and th125
 add('mission/th095', 'MSG_09', game='th095', compile_args=['--mission'], tags=['--mission'], full='''
 entry {
